@@ -105,6 +105,7 @@ fn main() {
         Some("w1child") => cmd_w1child(&args),
         Some("replay") => cmd_replay(&args),
         Some("genvoice") => cmd_genvoice(&args),
+        Some("digest") => cmd_digest(&args),
         Some("run1") => cmd_run1(&args),
         #[cfg(feature = "threads")]
         Some("l2a") => l2a::cmd_l2a(&args),
@@ -153,6 +154,17 @@ fn cmd_replay(args: &Args) -> i32 {
         }
     };
     match (f.world.as_str(), f.layer.as_str()) {
+        ("W1", "L1-reexec") => {
+            let seen = reexecute_digests(std::path::Path::new(path), 12);
+            if seen.len() >= 2 {
+                println!("REPRODUCED property={} signature={} detail={} distinct observations in 12 executions", f.property, f.signature, seen.len());
+                println!("SAME-SIGNATURE");
+                1
+            } else {
+                println!("NOT-REPRODUCED property={} (12 executions in fresh processes agree)", f.property);
+                0
+            }
+        }
         ("W1", "L1") => {
             let Some(prop) = Prop::from_id(&f.property) else { return 2 };
             let ops = match runner::parse_ops(&f.body) {
@@ -282,9 +294,45 @@ fn cmd_w1(args: &Args) -> i32 {
         }
         exit = 2;
     }
+    let mut reexec_reports: Vec<(String, PathBuf, String)> = Vec::new();
     if out.determinism_mismatches > 0 {
-        println!("HARNESS-ERROR determinism: {} of {} re-executed runs differ", out.determinism_mismatches, out.determinism_pairs);
-        exit = 2;
+        // The same history, executed twice in separate pristine processes, was observed differently.
+        // With every run isolated by fork() the harness contributes no nondeterminism, so for C03
+        // ("deterministic pure function") this is a candidate violation: confirm it by re-executing the
+        // history in freshly spawned processes.
+        let mut confirmed = 0;
+        if prop == Prop::C03 {
+            if let Ok(mut env) = env::Env::new("reexec") {
+                for i in out.det_mismatch_runs.iter().take(3) {
+                    if let Ok((ops, swarm)) = runner::ops_of_run(&cfg, *i, &mut env) {
+                        let rf = ReplayFile {
+                            property: "C03".into(),
+                            world: "W1".into(),
+                            layer: "L1-reexec".into(),
+                            verif_seed: seed,
+                            run: *i,
+                            swarm,
+                            signature: "C03.re-execution|output-differs-between-identical-executions".into(),
+                            detail: "the same call history, executed in separate fresh processes, produced different waveforms / return values".into(),
+                            body: ops.iter().map(|o| o.to_text()).collect(),
+                        };
+                        if let Ok(path) = runner::write_replay(&cfg.replay_dir, &format!("C03-{}-{}-reexec.replay", seed, i), &rf) {
+                            let seen = reexecute_digests(&path, 8);
+                            if seen.len() >= 2 {
+                                confirmed += 1;
+                                reexec_reports.push((rf.signature.clone(), path, format!("{} distinct observations in 8 executions of a {}-op history", seen.len(), ops.len())));
+                            } else {
+                                let _ = std::fs::remove_file(&path);
+                            }
+                        }
+                    }
+                }
+            }
+        }
+        if confirmed == 0 {
+            println!("HARNESS-ERROR determinism: {} of {} re-executed runs differ", out.determinism_mismatches, out.determinism_pairs);
+            exit = 2;
+        }
     }
     // violations: one report per distinct signature, lowest run index first
     let mut by_sig: BTreeMap<String, &runner::Found> = BTreeMap::new();
@@ -353,6 +401,21 @@ fn cmd_w1(args: &Args) -> i32 {
         }
     }
     drop(env);
+    for (sig, path, detail) in &reexec_reports {
+        if known.find(prop.id(), sig).is_some() {
+            continue;
+        }
+        println!("VIOLATION property={} replay={}", prop.id(), path.display());
+        println!("  signature: {}", sig);
+        println!("  detail: {}", detail);
+        violations_reported += 1;
+        reports.push(J::obj().set("signature", J::s(sig)).set("replay", J::s(&path.display().to_string())).set("detail", J::s(detail)));
+    }
+    // a violation that was reproduced from its replay file in a fresh process is a verdict even if
+    // something else in the batch went wrong
+    if violations_reported > 0 {
+        exit = 1;
+    }
 
     // dead-probe check (thorough only): a workload that never reaches its rare conditions must not pass silently
     let required: &[&str] = match prop {
@@ -477,4 +540,42 @@ fn cmd_run1(args: &Args) -> i32 {
     }
     println!("violation: {:?}", r.violation.map(|v| (v.signature(), v.detail)));
     0
+}
+
+/// `jbsim digest <replay-file>`: execute the history once (in a forked child of this fresh process) and
+/// print the digest of everything observed.
+fn cmd_digest(args: &Args) -> i32 {
+    let Some(path) = args.pos.get(1) else { return 2 };
+    let Ok(text) = std::fs::read_to_string(path) else { return 2 };
+    let Ok(f) = ReplayFile::parse(&text) else { return 2 };
+    let Some(prop) = Prop::from_id(&f.property) else { return 2 };
+    let Ok(ops) = runner::parse_ops(&f.body) else { return 2 };
+    let Ok(mut env) = env::Env::new("digest") else { return 2 };
+    match runner::digest_of_ops(prop, &ops, &mut env) {
+        Ok(d) => {
+            println!("DIGEST {}", d);
+            0
+        }
+        Err(e) => {
+            println!("HARNESS-ERROR {}", e);
+            2
+        }
+    }
+}
+
+/// Re-execute a history `n` times in freshly spawned processes; returns the distinct digests seen.
+pub fn reexecute_digests(path: &std::path::Path, n: usize) -> Vec<String> {
+    let exe = std::env::current_exe().expect("current_exe");
+    let mut seen: Vec<String> = Vec::new();
+    for _ in 0..n {
+        if let Ok(o) = std::process::Command::new(&exe).arg("digest").arg(path).output() {
+            let out = String::from_utf8_lossy(&o.stdout).to_string();
+            if let Some(d) = out.lines().find_map(|l| l.strip_prefix("DIGEST ")) {
+                if !seen.iter().any(|x| x == d) {
+                    seen.push(d.to_string());
+                }
+            }
+        }
+    }
+    seen
 }
